@@ -1,18 +1,20 @@
 #!/usr/bin/env python3
 """Run every stored seeded change against the check of its property, in isolation.
 
-A scratch copy of /verif (with its Lean build) and a scratch git worktree of /repo are used, so neither the
+Each worker owns a scratch copy of /verif (with its Lean build) and a scratch git worktree of /repo, so neither the
 working trees nor the regenerated Gen/*.lean files of the real /verif are touched:
-    python3 harness/seedall.py [--only C07-1,C15-2] [--tier quick]
+    python3 harness/seedall.py [--only C07-1,C15-2] [--tier quick] [--jobs 4]
 Writes /verif/seeded/RESULTS.json (id -> detected, violation lines, first finding) and prints a table.
 The scratch directories are removed at the end.
 """
+import concurrent.futures
 import json, os, re, shutil, subprocess, sys, time
 
 VERIF = os.path.dirname(os.path.dirname(os.path.abspath(__file__)))
 SCR = "/tmp/seedrun"
 only = None
 tier = "quick"
+jobs = 1
 args = sys.argv[1:]
 while args:
     a = args.pop(0)
@@ -20,52 +22,74 @@ while args:
         only = set(args.pop(0).split(","))
     elif a == "--tier":
         tier = args.pop(0)
+    elif a == "--jobs":
+        jobs = int(args.pop(0))
 
 
 def sh(cmd, **kw):
     return subprocess.run(cmd, shell=True, capture_output=True, text=True, **kw)
 
 
-shutil.rmtree(SCR, ignore_errors=True)
-os.makedirs(SCR)
-sh(f"git -C /repo worktree prune")
-r = sh(f"git -C /repo worktree add --detach {SCR}/repo HEAD")
-assert r.returncode == 0, r.stderr
-sh(f"rsync -a --exclude replays --exclude .git {VERIF}/ {SCR}/verif/")
-seeds = sorted(d for d in os.listdir(f"{VERIF}/seeded") if os.path.isdir(f"{VERIF}/seeded/{d}"))
-results = {}
-if os.path.exists(f"{VERIF}/seeded/RESULTS.json"):
-    results = json.load(open(f"{VERIF}/seeded/RESULTS.json"))
-env = dict(os.environ, VERIF_REPO=f"{SCR}/repo")
-for sid in seeds:
-    if only and sid not in only:
-        continue
+def setup(w):
+    d = f"{SCR}/w{w}"
+    shutil.rmtree(d, ignore_errors=True)
+    os.makedirs(d)
+    r = sh(f"git -C /repo worktree add --detach {d}/repo HEAD")
+    assert r.returncode == 0, r.stderr
+    sh(f"rsync -a --exclude replays --exclude .git {VERIF}/ {d}/verif/")
+    return d
+
+
+def run_seed(d, sid):
     prop = sid.split("-")[0]
     patch = f"{VERIF}/seeded/{sid}/patch.diff"
-    a = sh(f"git -C {SCR}/repo apply {patch}")
+    a = sh(f"git -C {d}/repo apply {patch}")
     if a.returncode != 0:
-        results[sid] = {"detected": None, "error": "patch does not apply: " + a.stderr[:200]}
-        continue
+        return sid, {"detected": None, "error": "patch does not apply: " + a.stderr[:200]}
     t0 = time.time()
-    shutil.rmtree(f"{SCR}/verif/replays", ignore_errors=True)
-    c = sh(f"cd {SCR}/verif && timeout 1800 ./check {prop} --tier {tier}", env=env)
+    shutil.rmtree(f"{d}/verif/replays", ignore_errors=True)
+    c = sh(f"cd {d}/verif && timeout 1800 ./check {prop} --tier {tier}", env=dict(os.environ, VERIF_REPO=f"{d}/repo"))
     lines = [l for l in c.stdout.splitlines() if l.startswith("VIOLATION")]
     first = None
     if lines:
         m = re.search(r"replay=(\S+)", lines[0])
         try:
-            first = json.load(open(f"{SCR}/verif/{m.group(1)}")).get("what")
+            first = json.load(open(f"{d}/verif/{m.group(1)}")).get("what")
         except Exception:
             pass
-    results[sid] = {"detected": bool(lines) and c.returncode == 1, "exit": c.returncode, "violation_lines": len(lines),
-                    "with_failing_input": len([l for l in lines if "no-failing-input-found" not in l]),
-                    "first_finding": (str(first)[:300] if first else None), "seconds": round(time.time() - t0), "tier": tier}
+    r = {"detected": bool(lines) and c.returncode == 1, "exit": c.returncode, "violation_lines": len(lines),
+         "with_failing_input": len([l for l in lines if "no-failing-input-found" not in l]),
+         "first_finding": (str(first)[:300] if first else None), "seconds": round(time.time() - t0), "tier": tier}
     if c.returncode not in (0, 1):
-        results[sid]["stderr_tail"] = c.stderr[-400:]
-    sh(f"git -C {SCR}/repo reset --hard -q && git -C {SCR}/repo clean -fdq")
-    print(sid, results[sid]["detected"], results[sid]["violation_lines"], results[sid]["seconds"], "s", flush=True)
-    json.dump(results, open(f"{VERIF}/seeded/RESULTS.json", "w"), indent=1, sort_keys=True)
-# clean tree control in the same scratch set-up
-sh(f"git -C /repo worktree remove --force {SCR}/repo")
+        r["stderr_tail"] = c.stderr[-400:]
+    sh(f"git -C {d}/repo reset --hard -q && git -C {d}/repo clean -fdq")
+    return sid, r
+
+
+def worker(w, sids):
+    d = setup(w)
+    out = []
+    for sid in sids:
+        out.append(run_seed(d, sid))
+        print(sid, out[-1][1].get("detected"), out[-1][1].get("violation_lines"), out[-1][1].get("seconds"), "s", flush=True)
+    sh(f"git -C /repo worktree remove --force {d}/repo")
+    shutil.rmtree(d, ignore_errors=True)
+    return out
+
+
+shutil.rmtree(SCR, ignore_errors=True)
+os.makedirs(SCR)
+sh("git -C /repo worktree prune")
+seeds = sorted(d for d in os.listdir(f"{VERIF}/seeded") if os.path.isdir(f"{VERIF}/seeded/{d}"))
+seeds = [s for s in seeds if not only or s in only]
+results = {}
+if os.path.exists(f"{VERIF}/seeded/RESULTS.json"):
+    results = json.load(open(f"{VERIF}/seeded/RESULTS.json"))
+chunks = [seeds[i::jobs] for i in range(jobs)]
+with concurrent.futures.ThreadPoolExecutor(jobs) as ex:
+    for out in ex.map(lambda t: worker(*t), [(i, c) for i, c in enumerate(chunks) if c]):
+        for sid, r in out:
+            results[sid] = r
+json.dump(results, open(f"{VERIF}/seeded/RESULTS.json", "w"), indent=1, sort_keys=True)
 shutil.rmtree(SCR, ignore_errors=True)
 print("done")
